@@ -135,7 +135,7 @@ func buildX(race, auto bool) (string, error) {
 		if b, err := exec.Command(ay, "/repo", dir).CombinedOutput(); err != nil {
 			return "", fmt.Errorf("instrumentation failed: %v\n%s", err, b)
 		}
-		args = append(args, "-overlay", filepath.Join(dir, "overlay.json"))
+		args = []string{"build", "-tags", "verif,simauto", "-overlay", filepath.Join(dir, "overlay.json")}
 	}
 	if race {
 		out += "-race"
